@@ -1009,3 +1009,42 @@ class C18:
 
 
 register(C18)
+
+
+# ========================================================================================= C19 (adds cluster histories)
+
+class C19(SIM_SPECS['C19'].__class__):
+    hist_cases = {'quick': 800, 'thorough': 20000}
+    technique = "property-based testing: idle/empty/finished queries against the shadow model along simulations and cluster operation histories"
+
+    def hist_body(self, case, state):
+        n, max_ingest, ops = case
+        m, viol = legal_history(n, max_ingest, ops)
+        state.evaluations += 1
+        state.count('ops:idle_truth_True', m.classes.get('idle_truth_True', 0))
+        state.count('ops:idle_truth_False', m.classes.get('idle_truth_False', 0))
+        viol = [v for v in viol if v['prop'] == 'C19']
+        for v in viol:
+            v['sig'] = v['part']
+        if m.classes.get('idle_truth_True') and m.classes.get('idle_truth_False') and m.classes.get('ingest_started'):
+            state.nontrivial.add(case_hash(['hist', n, max_ingest, m.ops]))
+        return state.split_known(viol)
+
+    def body(self, case, state):
+        if isinstance(case, list):
+            return self.hist_body(case, state)
+        return super().body(case, state)
+
+    def replay_case(self, case, state):
+        return self.body(case, state)
+
+    def run_shard(self, state, tier, seed, shard, nshards, cases=None):
+        run_given(state, history_strategy(), self.hist_body, max(1, (cases or self.hist_cases[tier]) // nshards),
+                  shard_seed(seed, self.prop, shard, 'hist'))
+        if state.failures:
+            return
+        total = cases or self.cases[tier]
+        run_given(state, self.strategy(tier), self.body, max(1, total // nshards), shard_seed(seed, self.prop, shard, 'sim'))
+
+
+register(C19)
